@@ -50,6 +50,7 @@ def scenarios(tier, seed):
         add("real_kernel", kernel="rq", n=2, m=1, cfg={"fpv": True})
         add("replaced_targets", n=2, m=2)
         add("batched_targets", n=2, m=2, B=2, test_batched=False, cfg={})
+        add("forward_kwargs", n=2, m=2, cfg={})
         add("batched_targets", n=2, m=1, B=3, test_batched=True, cfg={"fpv": True})
         add("multitask", n=2, t=2, m=1, cfg={})
         add("multitask", n=1, t=3, m=2, cfg={"fpv": True, "detach": False})
@@ -70,6 +71,7 @@ def scenarios(tier, seed):
             add("stub_posterior", n=2, m=2, mean="constant", lik=["gaussian", "fixed"][i % 2], cfg=cfg, batch=2)
         add("replaced_targets", n=3, m=2)
         for cfg in [{}, {"fpv": True}, {"lazy": False}, {"detach": False}]:
+            add("forward_kwargs", n=2, m=2, cfg=cfg)
             add("batched_targets", n=2, m=2, B=2, test_batched=False, cfg=cfg)
             add("batched_targets", n=3, m=1, B=2, test_batched=True, cfg=cfg)
         for cfg in all_cfgs[:8] if "all_cfgs" in dir() else [{}, {"fpv": True}, {"lazy": False}, {"detach": False}]:
@@ -270,6 +272,59 @@ def batched_targets(S, n, m, B, test_batched, cfg):
         S.prove_eq(var_t[b], np.diagonal(Cref), "b[%d].variance" % b)
         S.prove_eq(pvar_t[b], np.diagonal(Cref) + sig, "b[%d].likelihood(posterior).variance" % b)
         S.prove_eq(np.broadcast_to(cov_s, (B, m, m))[b], Cref, "b[%d].cov (the covariance may be stored un-expanded)" % b)
+
+
+def forward_kwargs(S, n, m, cfg):
+    """a model whose forward takes an optional keyword that changes the prior (here: an offset added to the mean): model(x*, offset=c)
+       is the conditional of THAT prior - the keyword reaches the prior on the training inputs as well as the joint prior"""
+    N = n + m
+    x, xs = labels(0, n), labels(n, N)
+    y = S.randn(n)
+    likelihood = gpytorch.likelihoods.GaussianLikelihood()
+    Gs, Gc = S.factor("g", N)
+    table = torch.zeros(N, N)
+
+    class KwGP(gpytorch.models.ExactGP):
+        def __init__(self_):
+            super().__init__(x, y, likelihood)
+            self_.mean_module = make_mean("constant")
+            self_.covar_module = TableKernel(table)
+
+        def forward(self_, xx, offset=None):
+            mean = self_.mean_module(xx)
+            if offset is not None:
+                mean = mean + offset
+            return gpytorch.distributions.MultivariateNormal(mean, self_.covar_module(xx))
+
+    model = KwGP()
+    for p in model.parameters():
+        p.requires_grad_(False)
+    model.eval(); likelihood.eval()
+    Y = S.sym_tensor(y, "y")
+    off = S.randn(1)[0]
+    Off = S.sym_tensor(off, "offset")[()]
+    declare_params(S, model.mean_module, "mean_")
+    declare_params(S, likelihood, "lik_")
+    with S.mode():
+        sig = as_sym_arr(SH.get(likelihood.noise)).reshape(-1)[0]
+        J = Gs @ Gs.T
+        K = J.copy()
+        for i in range(n):
+            K[i, i] = K[i, i] - sig
+        with torch.no_grad():
+            table.copy_(Gc @ Gc.T)
+            for i in range(n):
+                table[i, i] -= sig.c
+        SH.put(table, K, check=True)
+        mall = as_sym_arr(SH.get(model.mean_module(labels(0, N))))
+        with settings_ctx(cfg):
+            out = model(xs, offset=off)
+            mean_t, cov_t = out.mean, out.covariance_matrix
+    Gtr = Gs[:n, :n]
+    Ksx, Kss = K[n:, :n], K[n:, n:]
+    alpha = spd_solve(Gtr, (Y - mall[:n] - Off).reshape(n, 1))
+    S.prove_eq(mean_t, (Ksx @ alpha).reshape(-1) + mall[n:] + Off, "posterior mean under forward(x, offset=c) = conditional of the offset prior")
+    S.prove_eq(cov_t, Kss - Ksx @ spd_solve(Gtr, Ksx.T), "posterior covariance under forward(x, offset=c)")
 
 
 def replaced_targets(S, n, m):
